@@ -427,17 +427,26 @@ def c17_t(ctx):
 
 
 def _under_elapsed_test(ctx, f, blk):
-    eb = ExprBuilder(ctx.prog, f)
-    for b in f.live_blocks():
-        t = f.blocks[b]["term"]
-        if t["k"] != "switch":
-            continue
-        e = eb.operand(t["discr"])
-        txt = expr_str(e)
-        if "duration_since" in txt and "self.start_time" in txt and "self.timeout" in txt and ("::ge(" in txt or "Ge(" in txt):
-            false_t = [tb for v, tb in t["targets"] if v == 0]
-            if false_t and blk in f.reachable(t["otherwise"], avoid=[b]) and blk not in f.reachable(false_t[0], avoid=[b]):
-                return True
-            if false_t and blk in f.reachable(t["otherwise"], avoid=false_t):
-                return True
-    return False
+    """Every path to `blk` passed `now - start_time >= timeout` with value true."""
+
+    def track(key):
+        txt = " ".join(str(x) for x in key)
+        return key[0] in ("call", "expr") and "duration_since" in txt and "start_time" in txt and "timeout" in txt
+
+    fl = Flow(ctx.prog, ctx.mods, f, track)
+    worlds = fl.inn.get(blk, frozenset())
+    if not worlds:
+        return False
+    for w in worlds:
+        good = False
+        for k, (pos, s) in w:
+            nm = k[1]
+            is_ge = nm.endswith("::ge") or nm.startswith("Ge(")
+            is_lt = nm.endswith("::lt") or nm.startswith("Lt(")
+            if is_ge and pos and s == frozenset([1]):
+                good = True
+            if is_lt and pos and s == frozenset([0]):
+                good = True
+        if not good:
+            return False
+    return True
